@@ -302,3 +302,152 @@ pub fn program(p: &Program) -> Option<String> {
     }
     Some(format!("(program {} {} {})", sx::list(slots.types.iter()), sx::list(data), sx::list(out)))
 }
+
+// ---------------------------------------------------------------------------------------------
+// faithful form (`lean/RbModel/Src.lean`): ELSEIF chains, optional ELSE, DATA, DIM, multi-variable READ
+
+fn sblock(stmts: &Statements, slots: &mut Slots) -> Option<String> {
+    let mut out = vec![];
+    for s in stmts {
+        sstmt(s, slots, &mut out)?;
+    }
+    Some(sx::list(out))
+}
+
+fn sstmt(s: &Positioned<Statement>, slots: &mut Slots, out: &mut Vec<String>) -> Option<()> {
+    let Positioned { element, pos } = s;
+    let (r, c) = (pos.row(), pos.col());
+    match element {
+        Statement::Comment(_) => out.push("comment".to_owned()),
+        Statement::Dim(dim_list) => {
+            if dim_list.shared {
+                return None;
+            }
+            for v in &dim_list.variables {
+                match v.element.var_type() {
+                    DimType::BuiltIn(q, _) => {
+                        let x = slots.get(&v.element.as_bare_name().to_string(), *q);
+                        out.push(format!("(dim {} {} {} {})", x, qual(*q), v.pos.row(), v.pos.col()));
+                    }
+                    _ => return None,
+                }
+            }
+        }
+        Statement::BuiltInSubCall(b) => match b.built_in_sub() {
+            BuiltInSub::Data => {
+                let mut items = vec![];
+                for a in b.args() {
+                    let v = match &a.element {
+                        Expression::IntegerLiteral(i) => format!("(int {})", i),
+                        Expression::LongLiteral(l) => format!("(long {})", l),
+                        Expression::SingleLiteral(f) => float_val("sgl", *f as f64)?,
+                        Expression::DoubleLiteral(f) => float_val("dbl", *f)?,
+                        Expression::StringLiteral(t) => format!("(str {})", sx::chars(t)),
+                        _ => return None,
+                    };
+                    items.push(format!("({} {} {})", v, a.pos.row(), a.pos.col()));
+                }
+                out.push(format!("(data {} {} {})", sx::list(items), r, c));
+            }
+            BuiltInSub::Read => {
+                let mut vars = vec![];
+                for a in b.args() {
+                    match &a.element {
+                        Expression::Variable(name, ExpressionType::BuiltIn(q)) => {
+                            let x = slots.get(&name.as_bare_name().to_string(), *q);
+                            vars.push(format!("({} {} {} {})", x, qual(*q), a.pos.row(), a.pos.col()));
+                        }
+                        _ => return None,
+                    }
+                }
+                out.push(format!("(read {} {} {})", sx::list(vars), r, c));
+            }
+            _ => return None,
+        },
+        Statement::IfBlock(i) => {
+            let thn = sblock(&i.if_block.statements, slots)?;
+            let cond = expr(&i.if_block.condition, slots)?;
+            let mut elifs = vec![];
+            for eb in &i.else_if_blocks {
+                elifs.push(format!("({} {})", expr(&eb.condition, slots)?, sblock(&eb.statements, slots)?));
+            }
+            let els = match &i.else_block {
+                Some(e) => sblock(e, slots)?,
+                None => "none".to_owned(),
+            };
+            out.push(format!("(if {} {} {} {} {} {})", cond, thn, sx::list(elifs), els, r, c));
+        }
+        Statement::SelectCase(sc) => {
+            let subject = expr(&sc.expr, slots)?;
+            let mut cases = vec![];
+            for cb in &sc.case_blocks {
+                let mut conds = vec![];
+                for ce in cb.conditions() {
+                    conds.push(case_expr(ce, slots)?);
+                }
+                cases.push(format!("({} {})", sx::list(conds), sblock(cb.statements(), slots)?));
+            }
+            let els = match &sc.else_block {
+                Some(e) => sblock(e, slots)?,
+                None => "none".to_owned(),
+            };
+            out.push(format!("(select {} {} {} {} {})", subject, sx::list(cases), els, r, c));
+        }
+        Statement::ForLoop(f) => {
+            let (x, q) = match &f.variable_name.element {
+                Expression::Variable(name, ExpressionType::BuiltIn(q)) => (slots.get(&name.as_bare_name().to_string(), *q), *q),
+                _ => return None,
+            };
+            let lo = expr(&f.lower_bound, slots)?;
+            let hi = expr(&f.upper_bound, slots)?;
+            let step = match &f.step {
+                Some(s) => expr(s, slots)?,
+                None => "none".to_owned(),
+            };
+            out.push(format!("(for {} {} {} {} {} {} {} {})", x, qual(q), lo, hi, step, sblock(&f.statements, slots)?, r, c));
+        }
+        Statement::While(w) => {
+            out.push(format!("(while {} {} {} {})", expr(&w.condition, slots)?, sblock(&w.statements, slots)?, r, c));
+        }
+        Statement::DoLoop(d) => {
+            out.push(format!(
+                "(do {} {} {} {} {} {})",
+                expr(&d.condition, slots)?,
+                if d.position == DoLoopConditionPosition::Top { "t" } else { "f" },
+                if d.kind == DoLoopConditionKind::Until { "t" } else { "f" },
+                sblock(&d.statements, slots)?,
+                r,
+                c
+            ));
+        }
+        // the remaining forms are the same in both syntaxes
+        Statement::Assignment(_) | Statement::Print(_) | Statement::End | Statement::System => {
+            let mut data = vec![];
+            stmt(s, slots, &mut data, true, out)?;
+        }
+        _ => return None,
+    }
+    Some(())
+}
+
+/// `((sprogram (<ty>…) (<stmt>…)) ((<name> <ty>)…))`: the faithful program and its slot table, or None
+pub fn program_src(p: &Program) -> Option<(String, String)> {
+    let mut slots = Slots::new();
+    let mut out = vec![];
+    for gs in p {
+        match &gs.element {
+            GlobalStatement::Statement(s) => {
+                let sp = Positioned { element: s.clone(), pos: gs.pos };
+                sstmt(&sp, &mut slots, &mut out)?;
+            }
+            GlobalStatement::DefType(_) => {}
+            _ => return None,
+        }
+    }
+    let mut names: Vec<(usize, String)> = slots.map.iter().map(|((n, t), i)| (*i, format!("({} {})", crate::instr_sx::s(n), t))).collect();
+    names.sort();
+    Some((
+        format!("(sprogram {} {})", sx::list(slots.types.iter()), sx::list(out)),
+        sx::list(names.into_iter().map(|(_, s)| s)),
+    ))
+}
